@@ -218,7 +218,7 @@ lookup_dir_attr(struct attr_dict *dict,
 	struct phash ph;
 	unsigned hash;
 
-	if (*key == '.') {
+	if (keylen && *key == '.') {
 		++key;
 		--keylen;
 		fallback = false;
